@@ -10,7 +10,7 @@
    The [*_index_ok], [*_store_ok], [*_records_ok], [plan_count_ok] premises are invariants of the keepers,
    named in Proofs/GenesisRT.v and proved separately from C12 (index / record invariants). *)
 From Hub Require Import Base.Prelude Base.Arith Model.Types Model.Keeper Model.Handlers Model.Hooks Model.Step Model.Genesis.
-From Hub Require Import Proofs.Tactics Proofs.Sorting Proofs.KeysInv Proofs.Link Proofs.GenesisRT Proofs.GenesisReach Proofs.RecValid Proofs.RecValidClosed.
+From Hub Require Import Proofs.Tactics Proofs.Sorting Proofs.KeysInv Proofs.Link Proofs.GenesisRT Proofs.GenesisReach Proofs.RecValid Proofs.RecValidClosed Proofs.GenesisIdentity Proofs.Witness.
 
 (* the property as stated (Definition only: it is false) *)
 Definition C12_statement : Prop := C12_full_statement.
@@ -166,6 +166,43 @@ Print Assumptions C12_partial_params.
 
 (* non-vacuity of the domain premises: the witness genesis and history satisfy them (and the exported genesis of the
    resulting state indeed validates: C12_nonvacuous_roundtrip) *)
+(* THE ROUND TRIP IS THE IDENTITY wherever the genesis schema can carry the state: for every reachable state in which no
+   subscription has been bought yet (the two counters the schema cannot carry, sub_count and sess_count, are still 0),
+   export + re-import returns EXACTLY the original state -- all records, indices, counters, parameters, the SDK side --
+   up to the event list (empty after an import) and the transient "parameter modified" marks (all set by InitGenesis,
+   so the first end-blocker sweeps prices that are already inside their bounds).  Every continuation therefore gives
+   the very same results on both chains.  With the refutation witnesses above this locates the failure of the full
+   statement exactly in the subscription module's genesis and the session counter (known findings F5 / F8). *)
+Theorem C12_roundtrip_is_identity_before_first_subscription : forall g ops s,
+  run (init g) ops = RunOk s -> sub_count s = 0 -> sess_count s = 0 ->
+  exists v, roundtrip s = Ok (v, clear_events s <| modified := all_flags |>).
+Proof. exact reachable_roundtrip_identity. Qed.
+
+Theorem C12_continuation_identical_before_first_subscription : forall g ops s,
+  run (init g) ops = RunOk s -> sub_count s = 0 -> sess_count s = 0 -> forall ops2 i,
+  exists v s', roundtrip s = Ok (v, s') /\ run_from s' ops2 i = run_from (clear_events s <| modified := all_flags |>) ops2 i.
+Proof. exact reachable_continuation_identical. Qed.
+
+(* non-vacuity: a reachable state with an active node in the lease queue, a provider, an active plan with a linked node,
+   a recorded swap and both counters still 0 *)
+Definition wi_ops : list op :=
+  [ OBegin 1000;
+    OTx (MNodeRegister (canon RAcc [7%N]) (Some [(1%N, 5)]) (Some [(1%N, 7)]) "https://n:1" true);
+    OTx (MNodeUpdateStatus wt_node SActive);
+    OTx (MProvRegister (canon RAcc [9%N]) "prov" "" "" "" true);
+    OTx (MPlanCreate wt_prov 1000000 5 (Some [(1%N, 20)]));
+    OTx (MPlanUpdateStatus wt_prov 1 SActive);
+    OTx (MPlanLink wt_prov 1 wt_node);
+    OTx (MSwap (canon RAcc [9%N]) (repeat 7%N 32) wt_acc 12345);
+    OEnd ].
+Example C12_identity_nonvacuous :
+  match run (init wt_genesis) wi_ops with
+  | RunOk s => (sub_count s, sess_count s, size (node_act s), size (node_q s), size (prov_inact s), size (plan_act s),
+                size (node_plan s), size (swaps s), plan_count s) = (0, 0, 1%nat, 1%nat, 1%nat, 1%nat, 1%nat, 1%nat, 1)
+  | _ => False
+  end.
+Proof. vm_compute. reflexivity. Qed.
+
 Example C12_domain_nonvacuous : wf_genesis_rec w_genesis /\ wf_hist wf_op_rec (init w_genesis) w_ops_session_gone.
 Proof.
   split; [split; [vm_compute; reflexivity|split]|].
@@ -173,3 +210,5 @@ Proof.
   - intros it Hin. vm_compute in Hin. inversion Hin.
   - vm_compute. repeat split.
 Qed.
+Print Assumptions C12_roundtrip_is_identity_before_first_subscription.
+Print Assumptions C12_continuation_identical_before_first_subscription.
